@@ -10,7 +10,9 @@
    fresh e k: what the proxy itself generates for k (its own Via entry, the
    client address, scheme, host, URL; nothing for any other name). *)
 From Coq Require Import List Ascii String NArith Bool.
-From Martian.C14 Require Import Gen_HopByHop Gen_Stack Model Proofs_Base Proofs_Stack Proofs_Spec Proofs_Tie.
+From Coq Require Import Arith.
+From Martian.C14 Require Import Gen_HopByHop Gen_Stack Gen_Shared Model Proofs_Base Proofs_Stack Proofs_Spec
+  Proofs_Conc Proofs_Audit Proofs_Tie.
 Import ListNotations.
 
 (* No hop-by-hop header of the received message survives: after the stack a
@@ -71,6 +73,14 @@ Theorem C14_xfwd_preserved : forall e h,
 Proof. exact t_xfwd. Qed.
 Print Assumptions C14_xfwd_preserved.
 
+(* What must not happen to a request that is neither flagged nor looping: no
+   error, the round trip is not skipped, the inner (user) group runs. *)
+Theorem C14_forwarded_requests_pass : forall e h,
+  classify e h = Forwarded ->
+  o_err (stack_req e h) = None /\ o_skip (stack_req e h) = false /\ o_inner (stack_req e h) = true.
+Proof. exact t_fwd_flags. Qed.
+Print Assumptions C14_forwarded_requests_pass.
+
 (* Loop: at full strength ("any received Via naming this instance") the
    clause is REFUTED by a request that names Via in Connection (finding K1);
    it holds under exactly that guard. *)
@@ -129,6 +139,96 @@ Theorem C14_source_order_is_the_proved_order :
 Proof. exact (conj gen_req_order (conj gen_res_order gen_hop_list_covers_rfc)). Qed.
 Print Assumptions C14_source_order_is_the_proved_order.
 
+(* ---------------- audit round ---------------- *)
+
+(* One stack instance serves all connections.  ASSUMPTION, stated and tied:
+   a modifier call touches only the message it is given (translator facts
+   [shared_state_free]: no modifier fields, the hop-by-hop list is a literal
+   that is only ranged over, no writes to receiver fields or package
+   variables).  Then, for EVERY schedule interleaving the modifier calls of
+   any number of messages, a message that has finished has exactly the
+   sequential result, and it has finished once it was scheduled more often
+   than there are modifiers: the output does not depend on any other message. *)
+Theorem C14_output_independent_of_other_messages :
+  shared_state_free = true /\
+  (forall envs hs sched i,
+     let final := sys_run mstate (fun j => mstep (envs j)) sched (req_sys envs hs) in
+     (forall r, m_res (final i) = Some r -> r = stack_req (envs i) (hs i)) /\
+     (List.length req_order < count_occ Nat.eq_dec sched i ->
+      m_res (final i) = Some (stack_req (envs i) (hs i)))) /\
+  (forall loops hs sts sched i,
+     let final := sys_run rstate (fun j => rstep (loops j)) sched (res_sys hs sts) in
+     (forall r, r_res (final i) = Some r -> r = stack_res (loops i) (hs i) (sts i)) /\
+     (List.length res_order < count_occ Nat.eq_dec sched i ->
+      r_res (final i) = Some (stack_res (loops i) (hs i) (sts i)))).
+Proof. exact s_schedule_independent. Qed.
+Print Assumptions C14_output_independent_of_other_messages.
+
+(* Every verdict: `PROPFAIL <clause>` (the driver prints the first false entry of
+   c14_req_clauses / c14_res_clauses; response clauses get the suffix _response)
+   names a clause predicate that is FALSE of the observation; no PROPFAIL means
+   every clause predicate holds of it. *)
+Theorem C14_propfail_is_a_false_clause_and_ok_is_every_clause :
+  (forall e h o c, first_false (c14_req_clauses e h o) = Some c ->
+     exists P : Prop, In (c, P) (req_clause_props e h o) /\ ~ P) /\
+  (forall loop h st o c, first_false (c14_res_clauses loop h st o) = Some c ->
+     exists P : Prop, In (c, P) (res_clause_props loop h st o) /\ ~ P) /\
+  (forall e h o, first_false (c14_req_clauses e h o) = None ->
+     Forall (fun np => snd np) (req_clause_props e h o)) /\
+  (forall loop h st o, first_false (c14_res_clauses loop h st o) = None ->
+     Forall (fun np => snd np) (res_clause_props loop h st o)).
+Proof. exact s_propfail_sound. Qed.
+Print Assumptions C14_propfail_is_a_false_clause_and_ok_is_every_clause.
+
+(* The remaining functions the driver calls: model-vs-observation comparisons are
+   lookup equalities, the proxy-mode projection removes exactly the listed names,
+   rfc_covered and is_hopb decide what their names say. *)
+Theorem C14_driver_comparisons_decide_what_they_say :
+  (forall a b, req_out_eqb a b = true <->
+     (forall k, values (o_hdr a) k = values (o_hdr b) k) /\ o_err a = o_err b /\
+     o_skip a = o_skip b /\ o_inner a = o_inner b) /\
+  (forall a b, res_out_eqb a b = true <->
+     (forall k, values (s_hdr a) k = values (s_hdr b) k) /\ s_status a = s_status b /\
+     s_err a = s_err b /\ s_inner a = s_inner b) /\
+  (forall a b, hdr_eqb a b = true <-> (forall k, values a k = values b k)) /\
+  (forall h ks k, values (without h ks) k = if mem k ks then [] else values h k) /\
+  (rfc_covered = true <-> (forall k, In k rfc_hop_by_hop -> In k fixed_hop)) /\
+  (forall h k, is_hopb h k = true <-> is_hop h k).
+Proof. exact s_driver_comparisons. Qed.
+Print Assumptions C14_driver_comparisons_decide_what_they_say.
+
+(* Refinement: the statement-level transcription (fifo loop over the modifiers
+   of Gen_Stack) equals this closed form for EVERY input, in all three classes;
+   for forwarded requests every key has the value [expect e h k]. *)
+Theorem C14_stack_closed_form : forall e h,
+  stack_req e h =
+  (if bad_framing h then mkReqOut (after_framing h) (Some EFraming) false false
+   else if names_self e h && negb (is_hopb h K_VIA)
+        then mkReqOut (after_fwd e h) (Some ELoop) true false
+        else mkReqOut (fst (mod_via e (after_fwd e h))) None false true) /\
+  (classify e h = Forwarded -> forall k, values (o_hdr (stack_req e h)) k = expect e h k) /\
+  (forall loop rh st, stack_res loop rh st =
+     if loop then mkResOut rh 400 true true else mkResOut (mod_hbh rh) st false true).
+Proof. exact s_closed_form. Qed.
+Print Assumptions C14_stack_closed_form.
+
+(* Totalisation audit: the defaults in Model.v ([last _ []] twice, the
+   unreachable branch of split_on, truncated N subtraction in to_upper,
+   second_field = None, request-only modifiers inside run_res) are never what
+   decides a verdict. *)
+Theorem C14_totalisation_defaults_never_decide :
+  (forall c s d, last (split_on c s) d = last (split_on c s) []) /\
+  (forall h, te_bad h = true -> values h K_TE <> []) /\
+  (forall tes d, tes <> [] ->
+     te_last_ok tes = beqb (trim (last (split_on comma (last tes d)) d)) CHUNKED) /\
+  (forall h, values h K_TE = [] -> bad_framing h = cl_conflict h) /\
+  (forall c s, split_on c s <> []) /\
+  (forall c, is_lower c = true -> (32 <= code c)%N) /\
+  (forall self x, entry_names self x = true -> exists f, second_field (trim x) = Some f /\ f = self) /\
+  (forall m, In m res_order -> m <> MForwarded /\ m <> MFraming).
+Proof. exact s_totalisation. Qed.
+Print Assumptions C14_totalisation_defaults_never_decide.
+
 (* ---------------- non-vacuity ---------------- *)
 
 Definition ex_env : env :=
@@ -180,3 +280,45 @@ Example C14_example_response :
                              (B "Etag", B "q")]) 200
   = mkResOut [(B "Etag", [B "q"])] 200 false true.
 Proof. vm_compute. reflexivity. Qed.
+
+(* hypotheses of the any-case clause: token " x-HOP " of a Connection line, header written "X-hop" *)
+Example C14_example_connection_token_any_case :
+  In (B " keep-alive ,X-hop,  CLOSE") (values ex_fwd K_CONNECTION) /\
+  In (B "X-hop") (split_on comma (B " keep-alive ,X-hop,  CLOSE")) /\
+  forallb is_token_char (B "x-HOP") = true /\ lower (B "x-HOP") = lower (trim (B "X-hop")) /\
+  canonical_key (B "x-HOP") = B "X-Hop" /\ values ex_fwd (B "X-Hop") = [B "1"] /\
+  values (o_hdr (stack_req ex_env ex_fwd)) (B "X-Hop") = [].
+Proof. vm_compute. repeat split; try reflexivity. left. reflexivity. right. left. reflexivity. Qed.
+
+(* hypotheses of the Content-Length clause of C14_bad_framing_flagged *)
+Example C14_example_content_length_conflict :
+  let h := of_lines [(B "Content-Length", B "5"); (B "Content-Length", B " 5 ,6")] in
+  In (B "5") (map trim (cl_elems h)) /\ In (B "6") (map trim (cl_elems h)) /\ B "5" <> B "6".
+Proof. vm_compute. repeat split; try discriminate; auto. Qed.
+
+(* two messages through one stack, steps interleaved 0,1,1,0,...: both finish with their own results *)
+Definition ex_envs (i : nat) : env := ex_env.
+Definition ex_hs (i : nat) : headers :=
+  match i with
+  | 0 => of_lines [(B "Connection", B "X-A"); (B "X-A", B "hop"); (B "X-B", B "end-to-end")]
+  | _ => of_lines [(B "Connection", B "X-B"); (B "X-B", B "hop"); (B "X-A", B "end-to-end")]
+  end.
+Definition ex_sched : list nat := [0; 1; 1; 0; 0; 1; 0; 1; 1; 0; 1; 0].
+Example C14_example_interleaving :
+  List.length req_order < count_occ Nat.eq_dec ex_sched 0 /\
+  List.length req_order < count_occ Nat.eq_dec ex_sched 1 /\
+  m_res (sys_run mstate (fun j => mstep (ex_envs j)) ex_sched (req_sys ex_envs ex_hs) 0)
+    = Some (stack_req ex_env (ex_hs 0)) /\
+  values (o_hdr (stack_req ex_env (ex_hs 0))) (B "X-A") = [] /\
+  values (o_hdr (stack_req ex_env (ex_hs 0))) (B "X-B") = [B "end-to-end"] /\
+  values (o_hdr (stack_req ex_env (ex_hs 1))) (B "X-A") = [B "end-to-end"].
+Proof. vm_compute. repeat split; try reflexivity; repeat constructor. Qed.
+
+(* a PROPFAIL: the observation keeps a Connection-listed header *)
+Example C14_example_propfail :
+  let h := of_lines [(B "Connection", B "X-A"); (B "X-A", B "hop")] in
+  let good := stack_req ex_env h in
+  let bad := mkReqOut ((B "X-A", [B "hop"]) :: o_hdr good) None false true in
+  first_false (c14_req_clauses ex_env h good) = None /\
+  first_false (c14_req_clauses ex_env h bad) = Some "no_hop_by_hop_survives"%string.
+Proof. vm_compute. split; reflexivity. Qed.
